@@ -26,8 +26,7 @@ TRUSTED_BASE = [
     'CfUsb, socket, SocketTransport/CPX, SerialDriver.get_devices, crazyradio.get_serials); /repo is not modified',
 ]
 ASSUMPTIONS = [
-    'URIs consist of printable ASCII (0x20..0x7E); no percent escapes in the query; netloc without a matched [..] pair',
-    'decimal fields shorter than CPython\'s int-string limit (4300 digits)',
+    'URIs consist of printable ASCII (0x20..0x7E); percent escapes in the query decode to printable ASCII; netloc without a matched [..] pair',
     'USE_CFLINK=cpp (CfLinkCppDriver, needs the native cflinkcpp module, not installed) is not modelled',
     'whether a claimed URI can actually be opened (device present, host reachable) is an environment parameter of the '
     'dispatch theorems; in the correspondence runs it is measured per driver and URI',
@@ -40,7 +39,7 @@ PROVED = ('parse_uri returns dongle id, channel, data rate, MSB-first 5-byte add
           'pairwise exclusive, get_link_driver returns the unique claiming driver or None, unknown schemes give None; '
           'open_link never lets an exception escape and calls connection_failed exactly once when there is no link; '
           'uri_helper.address_from_env returns the same address as parse_uri for every well-formed URI.')
-NOT_PROVED = ('CfLinkCppDriver; behaviour on non-ASCII or percent-escaped URIs; what happens after a driver was '
+NOT_PROVED = ('CfLinkCppDriver; prrt fields; IPv6 literals in brackets; behaviour on non-ASCII URIs or escapes >= %80; what happens after a driver was '
               'selected (connection setup is C02).')
 
 HEADER = ('From CF Require Import Common.Bytes C20.Model.\nOpen Scope Z_scope.\n'
@@ -104,6 +103,7 @@ class _World:
         self.serial_devs = tuple(serial_devs)
         self.net_ok = net_ok
         self.radios = []
+        self.fields = {}
 
 
 @contextlib.contextmanager
@@ -130,6 +130,7 @@ def _patched(world):
 
     class FakeCfUsb:
         def __init__(self, devid=0):
+            world.fields['DrvUsb'] = ['UOk', devid]
             self.dev = object() if world.usb_ok else None
 
         def set_crtp_to_usb(self, v):
@@ -140,6 +141,7 @@ def _patched(world):
             pass
 
         def connect(self, addr):
+            world.fields['DrvUdp'] = ['NOk', addr[0], addr[1]]
             if not world.net_ok:
                 raise OSError('unreachable')
 
@@ -153,11 +155,15 @@ def _patched(world):
 
     class FakeTransport:
         def __init__(self, host, port):
+            world.fields['DrvTcp'] = ['NOk', host, port]
             if not world.net_ok:
                 raise OSError('unreachable')
 
     class FakeCPX:
-        def __init__(self, transport):
+        def __init__(self, transport, *a, **k):
+            pass
+
+        def close(self):
             pass
 
         def sendPacket(self, p):
@@ -172,7 +178,7 @@ def _patched(world):
     put(tcp, 'SocketTransport', FakeTransport)
     put(tcp, 'CPX', FakeCPX)
     put(tcp, '_CPXReceiveThread', _DummyThread)
-    put(ser, 'UARTTransport', lambda dev, baud: object())
+    put(ser, 'UARTTransport', lambda dev, baud: world.fields.__setitem__('DrvSerial', ['SDev', dev, baud]))
     put(ser, 'CPX', FakeCPX)
     put(ser, '_CPXReceiveThread', _DummyThread)
     put(ser.SerialDriver, 'get_devices', lambda self: {d: '/dev/' + d for d in world.serial_devs})
@@ -377,7 +383,19 @@ def impl_open_link(uri, world, classes):
 
 # ------------------------------------------------------------------------------------------ model runs
 def _cs(s):
-    return 'U ' + coqrun.coq_string(s)
+    """Coq term of type str for the text s; long runs of one character are built with `repeat` (long string
+    literals are very slow to elaborate)."""
+    import re
+    parts = []
+    pos = 0
+    for m in re.finditer(r'(.)\1{63,}', s):
+        if m.start() > pos:
+            parts.append('U ' + coqrun.coq_string(s[pos:m.start()]))
+        parts.append('repeat (%s)%%char (Z.to_nat %d)' % (coqrun.coq_string(m.group(1)), len(m.group(0))))
+        pos = m.end()
+    if pos < len(s) or not parts:
+        parts.append('U ' + coqrun.coq_string(s[pos:]))
+    return parts[0] if len(parts) == 1 else '(' + ' ++ '.join(parts) + ')'
 
 
 def _serials_term(serials):
@@ -408,6 +426,10 @@ def _cls_term(names):
 # ------------------------------------------------------------------------------------------ generators
 def _rand_case(rng, s):
     return ''.join(c.upper() if rng.random() < 0.5 else c.lower() for c in s)
+
+
+def _pct(rng, text):
+    return ''.join(('%%%02X' % ord(c) if rng.random() < 0.5 else '%%%02x' % ord(c)) if rng.random() < 0.4 else c for c in text)
 
 
 def gen_wellformed(rng, serials, ch=None):
@@ -450,9 +472,17 @@ def gen_wellformed(rng, serials, ch=None):
     if q < 0.35:
         lim = rng.choice([0, 1, 10, 100, 500, 1000, rng.randrange(0, 10 ** rng.randrange(1, 12))])
         exp['limit'] = lim
-        opts = ['rate_limit=%d' % lim]
+        key, val = 'rate_limit', '%d' % lim
+        if rng.random() < 0.12:                                   # leading zeros (long numeric field)
+            val = '0' * rng.choice([1, 3, 40]) + val
+        if rng.random() < 0.15:                                   # percent escapes that decode to the same text
+            key = _pct(rng, key)
+        if rng.random() < 0.15:
+            val = _pct(rng, val) if len(val) < 50 else val
+        opts = [key + '=' + val]
         if rng.random() < 0.3:
-            opts.insert(rng.randrange(2), rng.choice(['safelink=1', 'foo=bar', 'x=', 'flag', 'a=b=c']))
+            opts.insert(rng.randrange(2), rng.choice(['safelink=1', 'autoping=0', 'ackfilter=1', 'foo=bar', 'x=', 'flag', 'a=b=c',
+                                                      'rate%5Flimi=7', 'RATE_LIMIT=9', 'rate_limit', '%72=1', 'a%20b=c+d', '=5']))
         if rng.random() < 0.1:
             opts.append('rate_limit=%d' % rng.randrange(1000))      # the first one wins
         uri += '?' + '&'.join(opts)
@@ -488,7 +518,9 @@ def mutate(rng, uri):
         return '/'.join(parts)
     if k == 5:
         return uri + rng.choice(['/', '//', '/x', '?', '?rate_limit=x', '?rate_limit=1_0', '?rate_limit=+4', '?rate_limit= 5',
-                                 '&rate_limit=9', '?rate+limit=1', '?rate_limit=1&rate_limit=x', '#', ' ', '?=5', '?rate_limit=-2'])
+                                 '&rate_limit=9', '?rate+limit=1', '?rate_limit=1&rate_limit=x', '#', ' ', '?=5', '?rate_limit=-2', '?rate_limit=%31%30', '?rate_limit=%zz',
+                                 '?rate_limit=%2B7', '?rate_limit=1%20', '?rate%5flimit=3', '?rate_limit=%', '?rate_limit=1%', '?%3D=1',
+                                 '&&', '?&rate_limit=2&', '?rate_limit=2;x=1'])
     if k == 6:
         return rng.choice(['Radio', 'RADIO', 'radio:', 'radio:/', ' radio://', 'radios://', 'adio://', '']) + uri[8:]
     if k == 7:
@@ -529,6 +561,106 @@ def gen_serials(rng):
     return [rng.choice(pool) for _ in range(rng.randrange(1, 4))]
 
 
+
+# ------------------------------------------------------------------------------------------ the other drivers' parsers
+def impl_driver_fields(uri, serial_devs=('ttyUSB0', 'ttyACM1', 'dev/ttyS0', 'COM3')):
+    """For usb/serial/udp/tcp: what the driver's connect() extracts from the URI, seen at the fake device layer:
+    'wrong' (WrongUriType) | ['raise', type] (before anything was opened) | the recorded fields."""
+    from cflib.crtp.exceptions import WrongUriType
+    out = {}
+    for name, cls in _driver_classes().items():
+        if name in ('DrvRadio', 'DrvPrrt'):
+            continue
+        w = _World(serial_devs=serial_devs)
+        with _patched(w):
+            try:
+                cls().connect(uri, None, None)
+                res = w.fields.get(name, ['ok-no-fields'])
+            except WrongUriType:
+                res = 'wrong'
+            except Exception as e:  # noqa
+                res = w.fields.get(name) or ['raise', 'ValueError' if isinstance(e, ValueError) else 'Exception:' + str(e)[:40]]
+        out[name] = res
+    return out
+
+
+HOSTS = ['aideck.local', '192.168.4.1', 'localhost', 'AI-Deck.Local', 'h', 'a.b-c.d', 'EXAMPLE.com', '10.0.0.1', 'cf2', 'x_y']
+
+
+def gen_driver_uri(rng):
+    """Grammar based: mostly well-formed URIs of usb/serial/tcp/udp, then a malformed stream."""
+    sch = rng.choice(['usb', 'serial', 'tcp', 'udp'])
+    k = rng.random()
+    if sch == 'usb':
+        body = str(rng.choice([0, 1, 2, 7, 10, rng.randrange(10 ** rng.randrange(1, 12))]))
+        if k < 0.15:
+            body = '0' * rng.randrange(1, 4) + body
+        bad = ['', 'a', '-1', '+1', '1 ', ' 1', '1/', '1_0', '0x1', '1?x=1', '1#f', '１']
+    elif sch == 'serial':
+        body = rng.choice(['ttyUSB0', 'ttyACM1', 'dev/ttyS0', 'COM3', 'tty.usbserial-A1', 'cu.x', 'nosuchdev', 'a-b/c.d', 'TTYusb0'])
+        bad = ['', 'tty USB0', 'tty$', 'tty_1', 'a:b', 'x?y', 'x#y', 'x y', 'ü', 'a\\b']
+    else:
+        host = rng.choice(HOSTS)
+        port = rng.choice([0, 1, 80, 5000, 7777, 65535, rng.randrange(65536)])
+        body = '%s:%d' % (host, port)
+        r = rng.random()
+        if r < 0.1:
+            body = host
+        elif r < 0.2:
+            body = 'user@' + body
+        elif r < 0.3:
+            body += rng.choice(['/', '/path', '?q=1', '#f', '/a?b#c'])
+        elif r < 0.35:
+            body = body + ' trailing words'
+        bad = ['', ':', ':80', 'h:', 'h:port', 'h:65536', 'h:99999', 'h:-1', 'h:8 0', 'h: 80', 'h:80:90', 'a@b@h:1', 'h:' + '0' * 4301,
+               'H%ZONE:1', '[::1', '::1]', 'h:+1', 'h:1_0', 'h:１', 'a:b@h:7', 'h :1', '@:1', 'h:000080']
+    if k > 0.72:
+        body = rng.choice(bad)
+    uri = sch + '://' + body
+    if rng.random() < 0.06:
+        uri = mutate(rng, uri)
+    if rng.random() < 0.03:
+        uri = rng.choice([sch.upper(), sch.capitalize(), ' ' + sch, sch + 's']) + '://' + body
+    return uri
+
+
+HEADER_D = HEADER + '''Inductive nshow := NWrongS | NRaiseS | NOkS (h : option string) (p : option Z).
+Definition nsh (r : nres) := match r with NWrong => NWrongS | NRaise => NRaiseS | NOk h p => NOkS (option_map l2s h) p end.
+Inductive sshow := SWrongS | SInvalidS | SNameS (s : string).
+Definition ssh (r : sres) := match r with SWrong => SWrongS | SInvalid => SInvalidS | SName n => SNameS (l2s n) end.
+'''
+
+
+def _driver_fields_term(u):
+    return ('(net_in_scope (%s), usb_parse (%s), ssh (serial_parse (%s)), nsh (net_parse DrvUdp (%s)), nsh (net_parse DrvTcp (%s)), '
+            'map (fun d => claims d (%s)) [DrvUsb; DrvSerial; DrvUdp; DrvTcp])' % ((_cs(u),) * 6))
+
+
+def _model_fields(mv, serial_devs):
+    """Model results in the vocabulary of impl_driver_fields."""
+    usb, ser, udp, tcp = (_norm(x) for x in mv[1:5])
+
+    def strz(x):
+        return None if x is None else x
+    out = {}
+    out['DrvUsb'] = 'wrong' if usb == 'UWrong' else (['raise', 'ValueError'] if usb == 'URaise' else ['UOk', usb[1]])
+    if ser == 'SWrongS':
+        out['DrvSerial'] = 'wrong'
+    elif ser == 'SInvalidS':
+        out['DrvSerial'] = ['raise', 'Exception:Invalid serial URI']
+    else:
+        name = ser[1]
+        out['DrvSerial'] = ['SDev', '/dev/' + name, 576000] if name in serial_devs else ['raise', 'Exception:Could not identify device']
+    for key, v in (('DrvUdp', udp), ('DrvTcp', tcp)):
+        if v == 'NWrongS':
+            out[key] = 'wrong'
+        elif v == 'NRaiseS':
+            out[key] = ['raise', 'ValueError']
+        else:
+            out[key] = ['NOk', v[1], v[2]]
+    return out
+
+
 # ------------------------------------------------------------------------------------------ tie
 def _in_scope_py(uri):
     return all(32 <= ord(c) <= 126 for c in uri)
@@ -547,6 +679,10 @@ def tie(ctx):
     for c in _corpus_cases():
         if c.get('fn') == 'parse_uri':
             cases.append((c['uri'], list(c.get('serials', [])), 'corpus'))
+    for u in ('radio://0/80?rate_limit=' + '1' * 4301, 'radio://0/80?rate_limit=' + '0' * 4299 + '7', 'radio://0/' + '0' * 4298 + '80/2M',
+              'radio://0/' + '0' * 4299 + '80/2M', 'radio://0/0_' + '0' * 4298 + '5/2M', 'radio://0/80?rate_limit=%30' + '0' * 4298 + '9',
+              'radio://0/80?rate_limit=%30' + '0' * 4299 + '9'):
+        cases.append((u, [], 'parse_wellformed'))
     n_wf = ctx.scale(900, 12000)
     for i in range(n_wf):
         serials = gen_serials(rng)
@@ -724,8 +860,33 @@ def tie(ctx):
                 dis.append({'what': bad[0], 'uri': u, 'enable_serial': es, 'world': _world_json(w), 'model': bad[1], 'impl': bad[2]})
         elif sum(i_claims) == 1:
             nontriv += 1
+    # ---- 5. the other drivers' URI parsers (grammar based generator: mostly well-formed, then a malformed stream)
+    fcases = list(dict.fromkeys(
+        ['usb://' + '0' * 4299 + '7', 'usb://' + '1' * 4301, 'tcp://h:' + '0' * 4295 + '65535', 'udp://h:' + '0' * 4296 + '65535',
+         'tcp://H.Example:80 udp://x:1', 'udp://a@b:c@Host:7/x?y#z'] +
+        [u for u in (gen_driver_uri(rng) for _ in range(ctx.scale(700, 9000))) if _in_scope_py(u)]))
+    devs = ('ttyUSB0', 'ttyACM1', 'dev/ttyS0', 'COM3')
+    fmodel = coqrun.eval_terms(HEADER_D, [_driver_fields_term(u) for u in fcases], tag='c20f', shard=120)
+    dist['driver_fields'] = 0
+    dist['driver_field_kinds'] = {}
+    for u, mv in zip(fcases, fmodel):
+        if not mv[0]:
+            dist['out_of_scope_skipped'] += 1
+            continue
+        want = _model_fields(mv, devs)
+        got = impl_driver_fields(u, devs)
+        dist['driver_fields'] += 1
+        for d, v in want.items():
+            k = d + ':' + (v if isinstance(v, str) else v[0])
+            dist['driver_field_kinds'][k] = dist['driver_field_kinds'].get(k, 0) + 1
+        m_claims = dict(zip(['DrvUsb', 'DrvSerial', 'DrvUdp', 'DrvTcp'], mv[5]))
+        if want != got or any((want[d] != 'wrong') != m_claims[d] for d in want):
+            if len(dis) < 30:
+                dis.append({'what': 'driver URI parser: fields seen by the device layer differ', 'uri': u, 'model': want, 'impl': got})
+        elif any(isinstance(v, list) and v[0] in ('UOk', 'NOk', 'SDev') for v in got.values()):
+            nontriv += 1
     return {
-        'evaluations': sum(dist[k] for k in ('parse_wellformed', 'parse_mutated', 'parse_other_scheme', 'env_address', 'connect_calls', 'scan', 'dispatch')),
+        'evaluations': sum(dist[k] for k in ('driver_fields', 'parse_wellformed', 'parse_mutated', 'parse_other_scheme', 'env_address', 'connect_calls', 'scan', 'dispatch')),
         'distinct_nontrivial': nontriv,
         'rule': 'parse_uri on well-formed URIs (every channel 0..125, 3 rates, 1..10 hex digits in random case, numeric and '
                 'serial-number dongles with random serial lists, omitted suffixes, query options), 1-2 random edits of '
@@ -848,6 +1009,64 @@ def _check_dispatch(uri, es, world, expect):
     return None
 
 
+
+MALFORMED_CLASSES = {
+    'usb_not_a_number': ['usb://', 'usb://a', 'usb://-1', 'usb://+1', 'usb://1_0', 'usb://0x1', 'usb://1.0'],
+    'usb_trailing_text': ['usb://0/', 'usb://0 ', 'usb:// 0', 'usb://0?x=1', 'usb://0#f', 'usb://0/80/2M'],
+    'usb_too_long_number': ['usb://' + '1' * 4301],
+    'serial_bad_name': ['serial://', 'serial://tty USB0', 'serial://tty$', 'serial://tty_1', 'serial://a:b', 'serial://x?y'],
+    'serial_unknown_device': ['serial://nosuchdev', 'serial://TTYusb0'],
+    'net_port_not_a_number': ['tcp://h:port', 'udp://h:port', 'tcp://h:8x', 'udp://h: 80', 'tcp://h:+1', 'udp://h:1_0', 'tcp://h:80:90'],
+    'net_port_out_of_range': ['tcp://h:65536', 'udp://h:99999', 'tcp://h:' + '0' * 4300 + '1'],
+    'net_unmatched_bracket': ['tcp://[::1:80', 'udp://::1]:80'],
+    'scheme_case_or_space': ['RADIO://0/80/2M', 'Radio://0/80', 'USB://0', 'Tcp://h:1', ' radio://0/80', ' usb://0', 'radio ://0', 'radio:/0/80', 'radio//0'],
+    'radio_bad_field': ['radio://0/x/2M', 'radio://0/80/2M/E7E7E7E7E7E7', 'radio://0/80/2M/GG', 'radio://nosuchserial/80/2M',
+                        'radio://0/80?rate_limit=fast', 'radio://[/80', 'radio://0/8 0', 'radio://0//2M', 'radio://0/80?rate_limit=%zz',
+                        'radio://0/80?rate_limit=1%', 'radio://0/80?rate_limit=' + '1' * 4301, 'radio://0/' + '7' * 4301,
+                        'radio://0/80?rate%5Flimit=x', 'radio://0/80?a=1&rate_limit=&rate_limit=z'],
+}
+
+
+def _check_other_wellformed(rng):
+    """usb / serial / tcp / udp URIs built from values: the device layer must see exactly those values."""
+    devs = ('ttyUSB0', 'ttyACM1', 'dev/ttyS0', 'COM3')
+    k = rng.randrange(4)
+    if k == 0:
+        n = rng.choice([0, 1, 2, 9, 10, rng.randrange(10 ** rng.randrange(1, 15))])
+        z = rng.choice(['', '', '0', '000'])
+        uri, drv, want = 'usb://%s%d' % (z, n), 'DrvUsb', ['UOk', n]
+    elif k == 1:
+        name = rng.choice(devs)
+        uri, drv, want = 'serial://' + name, 'DrvSerial', ['SDev', '/dev/' + name, 576000]
+    else:
+        host = rng.choice(HOSTS)
+        port = rng.choice([0, 1, 80, 5000, 65535, rng.randrange(65536)])
+        sch, drv = ('tcp', 'DrvTcp') if k == 2 else ('udp', 'DrvUdp')
+        uri = '%s://%s:%d' % (sch, host, port)
+        if rng.random() < 0.3:
+            uri += rng.choice(['/', '/x/y', '?a=b', '#f'])
+        want = ['NOk', host.lower(), port]
+    got = impl_driver_fields(uri, devs)
+    exp = {d: 'wrong' for d in got}
+    exp[drv] = want
+    if got != exp:
+        return {'class': 'driver_uri_fields_wrong', 'case': {'fn': 'driver_fields', 'uri': uri, 'driver': drv, 'want': want},
+                'expected': exp, 'observed': got, 'detail': 'every well-formed URI parses to exactly its fields, in its own driver only'}
+    return None
+
+
+def _check_malformed(cls, uri, es=True):
+    """A malformed URI: no driver link, exactly one connection_failed from open_link, no exception."""
+    world = _World(serial_devs=('ttyUSB0', 'ttyACM1', 'dev/ttyS0', 'COM3'))
+    o = impl_open_link(uri, world, _class_list(es))
+    if o != ['ONoLink', ['CbRequested', 'CbFailed']]:
+        return {'class': 'open_link_exception_escapes' if o[0] == 'OEscapes' else 'malformed_accepted_' + cls,
+                'case': {'fn': 'malformed', 'cls': cls, 'uri': uri, 'enable_serial': es},
+                'expected': ['ONoLink', ['CbRequested', 'CbFailed']], 'observed': o,
+                'detail': 'a malformed URI must yield no driver and one connection_failed, never an escaping exception or a link'}
+    return None
+
+
 def oracle(ctx, deep=False):
     import random
     rng = random.Random(ctx.seed * 7919 + 13)
@@ -878,6 +1097,14 @@ def oracle(ctx, deep=False):
             found = {r: [3 * i + r] for r in range(3)}
         n += 1
         add(_check_scan(addr, found))
+    for _ in range(ctx.scale(300, 4000)):
+        n += 1
+        add(_check_other_wellformed(rng))
+    for cls, us in MALFORMED_CLASSES.items():
+        for u in us:
+            for es in (False, True):
+                n += 1
+                add(_check_malformed(cls, u, es))
     for es in (False, True):
         for k in range(ctx.scale(2, 12)):
             world = _World(radio_ok=rng.random() < 0.7, usb_ok=rng.random() < 0.7, net_ok=rng.random() < 0.7,
@@ -919,6 +1146,13 @@ def replay(payload, ctx):
         if 'expect' in c:
             return _check_wellformed(c['uri'], c.get('serials', []), c['expect'])
         return None
+    if fn == 'malformed':
+        return _check_malformed(c['cls'], c['uri'], c.get('enable_serial', True))
+    if fn == 'driver_fields':
+        got = impl_driver_fields(c['uri'])
+        exp = {d: 'wrong' for d in got}
+        exp[c['driver']] = c['want']
+        return None if got == exp else {'class': 'driver_uri_fields_wrong', 'expected': exp, 'observed': got}
     if fn == 'scan':
         return _check_scan(c['address'], {int(k): v for k, v in c['found'].items()})
     w = c.get('world', {})
